@@ -1,17 +1,371 @@
 (* Proofs/ScriptEval.v – C06/C07: MODEL (Python-style interpreter, end-topped stack) versus
-   SPEC (reference semantics, head-topped stack). *)
+   SPEC (reference semantics, head-topped stack): per opcode class, the branch body of
+   _EvalScript run on [rev s] does what the reference table does on s, and fails with
+   EvalScriptError exactly when the reference fails – no IndexError / KeyError / … branch of
+   the model is reachable. *)
 From BV Require Import Common.Base Common.PyList Common.Tx Common.ScriptFlags
-  Gen.ScriptConsts Gen.EvalConsts Model.Script Model.ScriptEval Spec.ScriptRef.
+  Gen.ScriptConsts Gen.EvalConsts Model.Script Model.FindAndDelete Model.ScriptEval
+  Spec.Script Spec.ScriptRef Proofs.ScriptStack Proofs.ScriptNum.
 
 (* the limits and opcode classes regenerated from the source are the reference ones *)
 Lemma limits_ok :
   MAX_SCRIPT_SIZE = 10000 /\ MAX_SCRIPT_ELEMENT_SIZE = 520 /\ MAX_SCRIPT_OPCODES = 201 /\
   MAX_STACK_ITEMS = 1000 /\ MAX_NUM_SIZE = 4.
 Proof. repeat split; reflexivity. Qed.
+Lemma sweep256 (P : Z -> bool) : forallb (fun n => P (Z.of_nat n)) (seq 0 256) = true ->
+  forall op, 0 <= op < 256 -> P op = true.
+Proof.
+  intros H op Hop. rewrite forallb_forall in H. specialize (H (Z.to_nat op)).
+  rewrite Z2Nat.id in H by lia. apply H. apply in_seq. lia.
+Qed.
 Lemma disabled_ok : forall op, 0 <= op < 256 -> mem op DISABLED_OPCODES = disabled op.
 Proof.
-  assert (H : forallb (fun n => Bool.eqb (mem (Z.of_nat n) DISABLED_OPCODES) (disabled (Z.of_nat n))) (seq 0 256) = true)
-    by (vm_compute; reflexivity).
-  intros op Hop. rewrite forallb_forall in H. specialize (H (Z.to_nat op)).
-  rewrite Z2Nat.id in H by lia. apply eqb_prop. apply H. apply in_seq. lia.
+  intros op Hop. apply eqb_prop.
+  apply (sweep256 (fun n => Bool.eqb (mem n DISABLED_OPCODES) (disabled n))); [vm_compute; reflexivity|exact Hop].
 Qed.
+(* the Python elif chain selects the branch the reference opcode table names *)
+Lemma kind_ok : forall op, 0 <= op < 256 -> kind_of op = ref_kind op.
+Proof.
+  intros op Hop. apply kind_eqb_eq.
+  apply (sweep256 (fun n => kind_eqb (kind_of n) (ref_kind n))); [vm_compute; reflexivity|exact Hop].
+Qed.
+
+(* ---------- numbers ---------- *)
+Lemma num_enc_len v : Z.abs v < 2^62 -> lenZ (num_enc v) <= 10.
+Proof.
+  intros H. unfold num_enc. destruct (v =? 0); [unfold lenZ; simpl; lia|].
+  unfold lenZ. rewrite le_enc_length.
+  assert (L : Z.log2 (Z.abs v) < 62).
+  { destruct (Z.eq_dec (Z.abs v) 0) as [E|E]; [rewrite E; simpl; lia|]. apply Z.log2_lt_pow2; lia. }
+  pose proof (Z.log2_nonneg (Z.abs v)).
+  destruct (128 <=? _); rewrite ?Nat2Z.inj_succ, Z2Nat.id; lia.
+Qed.
+Lemma bn2vch_small v : Z.abs v < 2^62 -> bn2vch v = Ok (ref_enc v).
+Proof.
+  intros H. rewrite bn2vch_spec. pose proof (num_enc_len v H).
+  destruct (Z.ltb_spec (lenZ (num_enc v)) (2^32)); [reflexivity|lia].
+Qed.
+Lemma cast_to_bignum_ref x : lenZ x < 2^32 ->
+  cast_to_bignum x = match ref_num x with Some n => Ok n | None => Err EvalErr end.
+Proof.
+  intros H. unfold cast_to_bignum, ref_num. rewrite vch2bn_spec.
+  destruct (Z.ltb_spec (lenZ x) (2^32)); [|lia]. cbn [bind]. change MAX_NUM_SIZE with 4.
+  destruct (lenZ x >? 4); reflexivity.
+Qed.
+Lemma ref_num_bound x n : ref_num x = Some n -> Z.abs n < 2^31.
+Proof.
+  unfold ref_num. destruct (Z.gtb_spec (lenZ x) 4) as [G|G]; [discriminate|]. intros E. injection E as <-.
+  unfold num_dec. destruct x as [|b t]; [simpl; lia|].
+  set (l := b :: t) in *. pose proof (le_dec_range l) as R. fold (lenZ l) in R.
+  assert (L1 : 1 <= lenZ l) by (unfold lenZ, l; cbn [length]; lia).
+  assert (E : 256 ^ lenZ l = 2 * (128 * 256 ^ (lenZ l - 1))).
+  { replace (lenZ l) with (Z.succ (lenZ l - 1)) at 1 by lia. rewrite Z.pow_succ_r by lia. lia. }
+  assert (B : 128 * 256 ^ (lenZ l - 1) <= 2^31).
+  { assert (256 ^ (lenZ l - 1) <= 256 ^ 3) by (apply Z.pow_le_mono_r; lia). change (256^3) with 16777216 in *. lia. }
+  destruct (Z.ltb_spec (le_dec l) (128 * 256 ^ (lenZ l - 1))); lia.
+Qed.
+
+Section Sim.
+Variable checksig : bytes -> bytes -> bytes -> bool.
+Variable ripemd160 sha1 sha256 : bytes -> bytes.
+Variable fl : flags.
+Notation exec := (exec checksig ripemd160 sha1 sha256 fl).
+Notation exec_op := (exec_op checksig ripemd160 sha1 sha256 fl).
+
+(* the model state that represents a reference state: every Python list is the reverse of
+   the head-topped one; pb is pbegincodehash *)
+Definition abs (r : rstate) (pb : Z) : state :=
+  {| stack := rev (r_stack r); altstack := rev (r_alt r); vfExec := rev (r_vf r); pbegincodehash := pb; nOpCount := r_nop r |}.
+Definition sim1 (m : res state) (sp : option rstate) (pb : Z) : Prop :=
+  match sp with Some r' => m = Ok (abs r' pb) | None => m = Err EvalErr end.
+
+(* sizes for which Python's struct.pack(">I", len) inside bn2vch / CScript([x]) cannot overflow *)
+Definition small (x : bytes) : Prop := lenZ x < 2^31.
+Definition small_state (r : rstate) : Prop :=
+  Forall small (r_stack r) /\ Forall small (r_alt r) /\ lenZ (r_stack r) < 2^31.
+
+Ltac pose_len l := lazymatch goal with H : 0 <= len l |- _ => fail | _ => pose proof (len_nonneg l) end.
+Ltac lens := rewrite ?len_cons, ?len_nil in *;
+  repeat match goal with
+         | |- context [len ?l] => pose_len l
+         | H : context [len ?l] |- _ => pose_len l
+         end; lia.
+Ltac nthrev k x := rewrite (py_nth_rev _ k x) by (first [lia | reflexivity]).
+Ltac znat := repeat match goal with |- context [Z.to_nat ?e] =>
+    let v := eval vm_compute in (Z.to_nat e) in change (Z.to_nat e) with v end.
+Ltac start K r := intros K; unfold exec_op; rewrite K; unfold exec, abs, sim1, set_stack;
+  cbn [stack altstack vfExec pbegincodehash nOpCount];
+  destruct r as [st al vf sub nop]; cbn [r_stack r_alt r_vf r_sub r_nop with_stack].
+Ltac few := rewrite check_args_rev_fail by lens; reflexivity.
+Ltac enough_ := rewrite check_args_rev_ok by lens; cbn [bind].
+Ltac popn := rewrite pop_n_rev by (cbn [length]; lia); cbn [bind skipn].
+Ltac pop1 := rewrite py_pop_rev; cbn [bind fst snd].
+Ltac delrev k := rewrite (py_del_rev _ k) by lens; cbn [bind]; znat; cbn [firstn skipn app].
+Ltac setrev k := rewrite (py_set_rev _ k) by lens; cbn [bind]; znat; cbn [firstn skipn app].
+Ltac fin := cbn [bind]; rewrite ?push_rev; reflexivity.
+(* decide the closed opcode comparisons of an elif chain *)
+Ltac evalb := repeat match goal with |- context [Z.eqb ?a ?b] =>
+    let v := eval vm_compute in (Z.eqb a b) in
+    lazymatch v with
+    | true => change (Z.eqb a b) with true
+    | false => change (Z.eqb a b) with false
+    end end; cbn [bind].
+
+Variables (scriptIn : bytes) (pb : Z) (o : sop) (rest : bytes).
+Notation OPC := (sop_opcode o).
+
+Lemma sim_2drop r : ref_kind OPC = K2Drop -> sim1 (exec scriptIn (abs r pb) o K2Drop) (exec_op OPC rest r) pb.
+Proof. start K r. destruct st as [|x2 [|x1 st]]; [few|few|]. enough_. popn. reflexivity. Qed.
+Lemma sim_2dup r : ref_kind OPC = K2Dup -> sim1 (exec scriptIn (abs r pb) o K2Dup) (exec_op OPC rest r) pb.
+Proof. start K r. destruct st as [|x2 [|x1 st]]; [few|few|]. enough_. nthrev 2 x1. nthrev 1 x2. fin. Qed.
+Lemma sim_3dup r : ref_kind OPC = K3Dup -> sim1 (exec scriptIn (abs r pb) o K3Dup) (exec_op OPC rest r) pb.
+Proof. start K r. destruct st as [|x3 [|x2 [|x1 st]]]; [few|few|few|]. enough_. nthrev 3 x1. nthrev 2 x2. nthrev 1 x3. fin. Qed.
+Lemma sim_2over r : ref_kind OPC = K2Over -> sim1 (exec scriptIn (abs r pb) o K2Over) (exec_op OPC rest r) pb.
+Proof. start K r. destruct st as [|x4 [|x3 [|x2 [|x1 st]]]]; [few|few|few|few|]. enough_. nthrev 4 x1. nthrev 3 x2. fin. Qed.
+Lemma sim_2rot r : ref_kind OPC = K2Rot -> sim1 (exec scriptIn (abs r pb) o K2Rot) (exec_op OPC rest r) pb.
+Proof.
+  start K r. destruct st as [|x6 [|x5 [|x4 [|x3 [|x2 [|x1 st]]]]]]; [few|few|few|few|few|few|]. enough_.
+  nthrev 6 x1. nthrev 5 x2. cbn [bind]. delrev 6. delrev 5. fin.
+Qed.
+Lemma sim_2swap r : ref_kind OPC = K2Swap -> sim1 (exec scriptIn (abs r pb) o K2Swap) (exec_op OPC rest r) pb.
+Proof.
+  start K r. destruct st as [|x4 [|x3 [|x2 [|x1 st]]]]; [few|few|few|few|]. enough_.
+  nthrev 4 x1. nthrev 2 x3. cbn [bind]. setrev 4. setrev 2. nthrev 3 x2. nthrev 1 x4. cbn [bind]. setrev 3. setrev 1. reflexivity.
+Qed.
+Lemma sim_drop r : ref_kind OPC = KDrop -> sim1 (exec scriptIn (abs r pb) o KDrop) (exec_op OPC rest r) pb.
+Proof. start K r. destruct st as [|x1 st]; [few|]. enough_. popn. reflexivity. Qed.
+Lemma sim_dup r : ref_kind OPC = KDup -> sim1 (exec scriptIn (abs r pb) o KDup) (exec_op OPC rest r) pb.
+Proof. start K r. destruct st as [|x1 st]; [few|]. enough_. nthrev 1 x1. fin. Qed.
+Lemma sim_nip r : ref_kind OPC = KNip -> sim1 (exec scriptIn (abs r pb) o KNip) (exec_op OPC rest r) pb.
+Proof. start K r. destruct st as [|x2 [|x1 st]]; [few|few|]. enough_. delrev 2. reflexivity. Qed.
+Lemma sim_over r : ref_kind OPC = KOver -> sim1 (exec scriptIn (abs r pb) o KOver) (exec_op OPC rest r) pb.
+Proof. start K r. destruct st as [|x2 [|x1 st]]; [few|few|]. enough_. nthrev 2 x1. fin. Qed.
+Lemma sim_rot r : ref_kind OPC = KRot -> sim1 (exec scriptIn (abs r pb) o KRot) (exec_op OPC rest r) pb.
+Proof.
+  start K r. destruct st as [|x3 [|x2 [|x1 st]]]; [few|few|few|]. enough_.
+  nthrev 3 x1. nthrev 2 x2. cbn [bind]. setrev 3. setrev 2. nthrev 2 x1. nthrev 1 x3. cbn [bind]. setrev 2. setrev 1. reflexivity.
+Qed.
+Lemma sim_swap r : ref_kind OPC = KSwap -> sim1 (exec scriptIn (abs r pb) o KSwap) (exec_op OPC rest r) pb.
+Proof.
+  start K r. destruct st as [|x2 [|x1 st]]; [few|few|]. enough_.
+  nthrev 2 x1. nthrev 1 x2. cbn [bind]. setrev 2. setrev 1. reflexivity.
+Qed.
+Lemma sim_tuck r : ref_kind OPC = KTuck -> sim1 (exec scriptIn (abs r pb) o KTuck) (exec_op OPC rest r) pb.
+Proof.
+  start K r. destruct st as [|x2 [|x1 st]]; [few|few|]. enough_. nthrev 1 x2. cbn [bind].
+  rewrite py_insert_rev_tuck. reflexivity.
+Qed.
+Lemma sim_ifdup r : ref_kind OPC = KIfdup -> sim1 (exec scriptIn (abs r pb) o KIfdup) (exec_op OPC rest r) pb.
+Proof.
+  start K r. destruct st as [|x1 st]; [few|]. enough_. nthrev 1 x1. cbn [bind]. rewrite cast_to_bool_ref.
+  destruct (ref_bool x1); fin.
+Qed.
+Lemma sim_verify r : ref_kind OPC = KVerify -> sim1 (exec scriptIn (abs r pb) o KVerify) (exec_op OPC rest r) pb.
+Proof.
+  start K r. destruct st as [|x1 st]; [few|]. enough_. nthrev 1 x1. cbn [bind]. rewrite cast_to_bool_ref.
+  destruct (ref_bool x1); [popn; reflexivity|reflexivity].
+Qed.
+Lemma sim_equal r : ref_kind OPC = KEqual -> sim1 (exec scriptIn (abs r pb) o KEqual) (exec_op OPC rest r) pb.
+Proof.
+  start K r. destruct st as [|x2 [|x1 st]]; [few|few|]. enough_. pop1. pop1. rewrite push_rev.
+  replace (bytes_eqb x2 x1) with (bytes_eqb x1 x2); [reflexivity|].
+  destruct (bytes_eqb x1 x2) eqn:E, (bytes_eqb x2 x1) eqn:E'; try reflexivity;
+    [apply bytes_eqb_eq in E; subst; now rewrite bytes_eqb_refl in E' | apply bytes_eqb_eq in E'; subst; now rewrite bytes_eqb_refl in E].
+Qed.
+Lemma sim_equalverify r : ref_kind OPC = KEqualVerify -> sim1 (exec scriptIn (abs r pb) o KEqualVerify) (exec_op OPC rest r) pb.
+Proof.
+  start K r. destruct st as [|x2 [|x1 st]]; [few|few|]. enough_. nthrev 1 x2. nthrev 2 x1. cbn [bind].
+  replace (bytes_eqb x2 x1) with (bytes_eqb x1 x2).
+  - destruct (bytes_eqb x1 x2); [popn; reflexivity|reflexivity].
+  - destruct (bytes_eqb x1 x2) eqn:E, (bytes_eqb x2 x1) eqn:E'; try reflexivity;
+      [apply bytes_eqb_eq in E; subst; now rewrite bytes_eqb_refl in E' | apply bytes_eqb_eq in E'; subst; now rewrite bytes_eqb_refl in E].
+Qed.
+Lemma sim_hashes r k : (k = KRipemd \/ k = KSha1 \/ k = KSha256 \/ k = KHash160 \/ k = KHash256) ->
+  ref_kind OPC = k -> sim1 (exec scriptIn (abs r pb) o k) (exec_op OPC rest r) pb.
+Proof.
+  intros [->|[->|[->|[->| ->]]]]; start K r; (destruct st as [|x1 st]; [few|]); enough_; pop1; fin.
+Qed.
+Lemma sim_nop r : ref_kind OPC = KNop -> sim1 (exec scriptIn (abs r pb) o KNop) (exec_op OPC rest r) pb.
+Proof. start K r. reflexivity. Qed.
+Lemma sim_nopn r : ref_kind OPC = KNopN -> sim1 (exec scriptIn (abs r pb) o KNopN) (exec_op OPC rest r) pb.
+Proof. start K r. destruct (f_discourage_nops fl); reflexivity. Qed.
+Lemma sim_return r : ref_kind OPC = KReturn -> sim1 (exec scriptIn (abs r pb) o KReturn) (exec_op OPC rest r) pb.
+Proof. start K r. reflexivity. Qed.
+Lemma sim_bad r : ref_kind OPC = KBad -> sim1 (exec scriptIn (abs r pb) o KBad) (exec_op OPC rest r) pb.
+Proof. start K r. reflexivity. Qed.
+Lemma sim_toalt r : ref_kind OPC = KToAlt -> sim1 (exec scriptIn (abs r pb) o KToAlt) (exec_op OPC rest r) pb.
+Proof. start K r. destruct st as [|x1 st]; [few|]. enough_. pop1. reflexivity. Qed.
+Lemma sim_fromalt r : ref_kind OPC = KFromAlt -> sim1 (exec scriptIn (abs r pb) o KFromAlt) (exec_op OPC rest r) pb.
+Proof.
+  start K r. rewrite len_rev. destruct al as [|x1 al].
+  - reflexivity.
+  - destruct (Z.ltb_spec (len (x1 :: al)) 1); [exfalso; lens|]. pop1. reflexivity.
+Qed.
+Lemma sim_else r : ref_kind OPC = KElse -> sim1 (exec scriptIn (abs r pb) o KElse) (exec_op OPC rest r) pb.
+Proof.
+  start K r. rewrite len_rev. destruct vf as [|b vf]; [reflexivity|].
+  destruct (Z.eqb_spec (len (b :: vf)) 0); [exfalso; lens|]. nthrev 1 b. cbn [bind]. setrev 1. reflexivity.
+Qed.
+Lemma sim_endif r : ref_kind OPC = KEndif -> sim1 (exec scriptIn (abs r pb) o KEndif) (exec_op OPC rest r) pb.
+Proof.
+  start K r. rewrite len_rev. destruct vf as [|b vf]; [reflexivity|].
+  destruct (Z.eqb_spec (len (b :: vf)) 0); [exfalso; lens|]. pop1. reflexivity.
+Qed.
+Lemma check_exec_rev vf : check_exec (rev vf) = forallb (fun b => b) vf.
+Proof.
+  unfold check_exec. induction vf as [|b vf IH]; [reflexivity|]. cbn [rev forallb].
+  rewrite forallb_app, IH. cbn [forallb]. destruct b, (forallb _ vf); reflexivity.
+Qed.
+Lemma sim_if r neg : ref_kind OPC = KIf neg -> sim1 (exec scriptIn (abs r pb) o (KIf neg)) (exec_op OPC rest r) pb.
+Proof.
+  start K r. rewrite check_exec_rev. destruct (forallb (fun b => b) vf).
+  - destruct st as [|x1 st]; [rewrite check_args_rev_fail by lens; reflexivity|].
+    enough_. pop1. rewrite cast_to_bool_ref. reflexivity.
+  - reflexivity.
+Qed.
+
+(* ---------- numeric opcodes ---------- *)
+Hypothesis OPC_byte : 0 <= OPC < 256.
+
+Lemma sim_small r : ref_kind OPC = KSmall -> sim1 (exec scriptIn (abs r pb) o KSmall) (exec_op OPC rest r) pb.
+Proof.
+  start K r. change (OP_1 - 1) with 0x50. rewrite bn2vch_small by lia. fin.
+Qed.
+Lemma sim_depth r : lenZ (r_stack r) < 2^31 ->
+  ref_kind OPC = KDepth -> sim1 (exec scriptIn (abs r pb) o KDepth) (exec_op OPC rest r) pb.
+Proof.
+  intros S. start K r. cbn [r_stack] in S. rewrite len_rev. unfold lenZ in *. fold (len st).
+  rewrite bn2vch_small by (unfold len; lia). fin.
+Qed.
+Lemma sim_size r : Forall small (r_stack r) ->
+  ref_kind OPC = KSize -> sim1 (exec scriptIn (abs r pb) o KSize) (exec_op OPC rest r) pb.
+Proof.
+  intros S. start K r. cbn [r_stack] in S. destruct st as [|x1 st]; [few|]. enough_. nthrev 1 x1. cbn [bind].
+  inversion S as [|? ? Sx _]; subst. unfold small in Sx.
+  rewrite bn2vch_small by (unfold lenZ in *; lia). fin.
+Qed.
+
+Lemma un_ops op : 0 <= op < 256 -> ref_kind op = KUn -> In op [0x8b; 0x8c; 0x8f; 0x90; 0x91; 0x92].
+Proof.
+  intros H K.
+  assert (T : (if kind_eqb (ref_kind op) KUn then mem op [0x8b; 0x8c; 0x8f; 0x90; 0x91; 0x92] else true) = true)
+    by (apply (sweep256 (fun n => if kind_eqb (ref_kind n) KUn then mem n [0x8b; 0x8c; 0x8f; 0x90; 0x91; 0x92] else true)); [vm_compute; reflexivity|exact H]).
+  rewrite K in T. cbn [kind_eqb] in T. unfold mem in T. apply existsb_exists in T as (x & I & E). apply Z.eqb_eq in E. now subst.
+Qed.
+Lemma bin_ops op : 0 <= op < 256 -> ref_kind op = KBin ->
+  In op [0x93; 0x94; 0x9a; 0x9b; 0x9c; 0x9d; 0x9e; 0x9f; 0xa0; 0xa1; 0xa2; 0xa3; 0xa4].
+Proof.
+  intros H K.
+  assert (T : (if kind_eqb (ref_kind op) KBin then mem op [0x93; 0x94; 0x9a; 0x9b; 0x9c; 0x9d; 0x9e; 0x9f; 0xa0; 0xa1; 0xa2; 0xa3; 0xa4] else true) = true)
+    by (apply (sweep256 (fun n => if kind_eqb (ref_kind n) KBin then mem n [0x93; 0x94; 0x9a; 0x9b; 0x9c; 0x9d; 0x9e; 0x9f; 0xa0; 0xa1; 0xa2; 0xa3; 0xa4] else true)); [vm_compute; reflexivity|exact H]).
+  rewrite K in T. cbn [kind_eqb] in T. unfold mem in T. apply existsb_exists in T as (x & I & E). apply Z.eqb_eq in E. now subst.
+Qed.
+
+Lemma sim_un r : Forall small (r_stack r) ->
+  ref_kind OPC = KUn -> sim1 (exec scriptIn (abs r pb) o KUn) (exec_op OPC rest r) pb.
+Proof.
+  intros S K. pose proof (un_ops OPC OPC_byte K) as I. revert K. start K r. cbn [r_stack] in S. unfold unary_op.
+  rewrite len_rev. destruct st as [|x1 st].
+  - destruct (Z.ltb_spec (len (@nil bytes)) 1); [reflexivity|exfalso; lens].
+  - destruct (Z.ltb_spec (len (x1 :: st)) 1); [exfalso; lens|]. cbn [bind]. nthrev 1 x1. cbn [bind].
+    inversion S as [|? ? Sx _]; subst. unfold small in Sx.
+    rewrite cast_to_bignum_ref by lia. destruct (ref_num x1) as [n|] eqn:En; [|reflexivity]. cbn [bind].
+    pose proof (ref_num_bound x1 n En) as B. pop1.
+    cbn [In] in I. destruct I as [E|[E|[E|[E|[E|[E|[]]]]]]]; rewrite <- E; cbn [un_arith];
+      evalb.
+    + rewrite bn2vch_small by lia. fin.
+    + rewrite bn2vch_small by lia. fin.
+    + rewrite bn2vch_small by lia. fin.
+    + replace (if n <? 0 then - n else n) with (Z.abs n) by (destruct (Z.ltb_spec n 0); lia).
+      rewrite bn2vch_small by lia. fin.
+    + unfold b2i. destruct (n =? 0); rewrite bn2vch_small by (simpl; lia); fin.
+    + unfold b2i. destruct (n =? 0); cbn [negb]; rewrite bn2vch_small by (simpl; lia); fin.
+Qed.
+
+Lemma bytes_eqb_sym a b : bytes_eqb a b = bytes_eqb b a.
+Proof.
+  destruct (bytes_eqb a b) eqn:E, (bytes_eqb b a) eqn:E'; try reflexivity;
+    [apply bytes_eqb_eq in E; subst; now rewrite bytes_eqb_refl in E' | apply bytes_eqb_eq in E'; subst; now rewrite bytes_eqb_refl in E].
+Qed.
+
+Lemma sim_bin r : Forall small (r_stack r) ->
+  ref_kind OPC = KBin -> sim1 (exec scriptIn (abs r pb) o KBin) (exec_op OPC rest r) pb.
+Proof.
+  intros S K. pose proof (bin_ops OPC OPC_byte K) as I. revert K. start K r. cbn [r_stack] in S. unfold bin_op.
+  rewrite len_rev. destruct st as [|x2 [|x1 st]].
+  - destruct (Z.ltb_spec (len (@nil bytes)) 2); [reflexivity|exfalso; lens].
+  - destruct (Z.ltb_spec (len [x2]) 2); [reflexivity|exfalso; lens].
+  - destruct (Z.ltb_spec (len (x2 :: x1 :: st)) 2); [exfalso; lens|]. cbn [bind]. nthrev 1 x2. cbn [bind].
+    inversion S as [|? ? S2 S']; subst. inversion S' as [|? ? S1 _]; subst. unfold small in S1, S2.
+    rewrite (cast_to_bignum_ref x2) by lia. destruct (ref_num x2) as [b|] eqn:Eb.
+    2:{ destruct (ref_num x1); reflexivity. }
+    cbn [bind]. nthrev 2 x1. cbn [bind]. rewrite (cast_to_bignum_ref x1) by lia.
+    destruct (ref_num x1) as [a|] eqn:Ea; [|reflexivity]. cbn [bind].
+    pose proof (ref_num_bound x1 a Ea) as Ba. pose proof (ref_num_bound x2 b Eb) as Bb.
+    cbn [In] in I. destruct I as [E|[E|[E|[E|[E|[E|[E|[E|[E|[E|[E|[E|[E|[]]]]]]]]]]]]]]; rewrite <- E; cbn [bin_arith]; evalb.
+    + rewrite pop_n_rev by (cbn [length]; lia). cbn [bind skipn]. rewrite bn2vch_small by lia. fin.
+    + rewrite pop_n_rev by (cbn [length]; lia). cbn [bind skipn]. rewrite bn2vch_small by lia. fin.
+    + rewrite pop_n_rev by (cbn [length]; lia). cbn [bind skipn]. unfold b2i.
+      destruct (negb (a =? 0) && negb (b =? 0)); rewrite bn2vch_small by (simpl; lia); fin.
+    + rewrite pop_n_rev by (cbn [length]; lia). cbn [bind skipn]. unfold b2i.
+      destruct (negb (a =? 0) || negb (b =? 0)); rewrite bn2vch_small by (simpl; lia); fin.
+    + rewrite pop_n_rev by (cbn [length]; lia). cbn [bind skipn]. unfold b2i.
+      destruct (a =? b); rewrite bn2vch_small by (simpl; lia); fin.
+    + (* NUMEQUALVERIFY *) destruct (a =? b); cbn [negb]; [|reflexivity].
+      rewrite pop_n_rev by (cbn [length]; lia). cbn [bind skipn]. reflexivity.
+    + rewrite pop_n_rev by (cbn [length]; lia). cbn [bind skipn]. unfold b2i.
+      destruct (negb (a =? b)); rewrite bn2vch_small by (simpl; lia); fin.
+    + rewrite pop_n_rev by (cbn [length]; lia). cbn [bind skipn]. unfold b2i.
+      destruct (a <? b); rewrite bn2vch_small by (simpl; lia); fin.
+    + rewrite pop_n_rev by (cbn [length]; lia). cbn [bind skipn]. unfold b2i.
+      replace (a >? b) with (b <? a) by (rewrite Z.gtb_ltb; reflexivity).
+      destruct (b <? a); rewrite bn2vch_small by (simpl; lia); fin.
+    + rewrite pop_n_rev by (cbn [length]; lia). cbn [bind skipn]. unfold b2i.
+      destruct (a <=? b); rewrite bn2vch_small by (simpl; lia); fin.
+    + rewrite pop_n_rev by (cbn [length]; lia). cbn [bind skipn]. unfold b2i.
+      replace (a >=? b) with (b <=? a) by (rewrite Z.geb_leb; reflexivity).
+      destruct (b <=? a); rewrite bn2vch_small by (simpl; lia); fin.
+    + rewrite pop_n_rev by (cbn [length]; lia). cbn [bind skipn].
+      replace (if a <? b then a else b) with (Z.min a b) by (destruct (Z.ltb_spec a b); lia).
+      rewrite bn2vch_small by lia. fin.
+    + rewrite pop_n_rev by (cbn [length]; lia). cbn [bind skipn].
+      replace (if a >? b then a else b) with (Z.max a b) by (rewrite Z.gtb_ltb; destruct (Z.ltb_spec b a); lia).
+      rewrite bn2vch_small by lia. fin.
+Qed.
+
+Lemma sim_within r : Forall small (r_stack r) ->
+  ref_kind OPC = KWithin -> sim1 (exec scriptIn (abs r pb) o KWithin) (exec_op OPC rest r) pb.
+Proof.
+  intros S. start K r. cbn [r_stack] in S. destruct st as [|x3 [|x2 [|x1 st]]]; [few|few|few|]. enough_.
+  inversion S as [|? ? S3 S']; subst. inversion S' as [|? ? S2 S'']; subst. inversion S'' as [|? ? S1 _]; subst.
+  unfold small in S1, S2, S3.
+  nthrev 1 x3. cbn [bind]. rewrite (cast_to_bignum_ref x3) by lia.
+  destruct (ref_num x3) as [hi|]; cbn [bind].
+  2:{ destruct (ref_num x1), (ref_num x2); reflexivity. }
+  nthrev 2 x2. cbn [bind]. rewrite (cast_to_bignum_ref x2) by lia.
+  destruct (ref_num x2) as [lo|]; cbn [bind].
+  2:{ destruct (ref_num x1); reflexivity. }
+  nthrev 3 x1. cbn [bind]. rewrite (cast_to_bignum_ref x1) by lia.
+  destruct (ref_num x1) as [a|]; cbn [bind]; [|reflexivity].
+  popn. rewrite push_rev. reflexivity.
+Qed.
+
+Lemma sim_pickroll r roll : Forall small (r_stack r) ->
+  ref_kind OPC = KPickRoll roll -> sim1 (exec scriptIn (abs r pb) o (KPickRoll roll)) (exec_op OPC rest r) pb.
+Proof.
+  intros HS. start K r. cbn [r_stack] in HS. destruct st as [|nv [|x1 st]]; [few|few|]. enough_. pop1.
+  inversion HS as [|? ? Sn _]; subst. unfold small in Sn.
+  rewrite cast_to_bignum_ref by lia. destruct (ref_num nv) as [n|]; cbn [bind]; [|reflexivity].
+  rewrite len_rev. unfold lenZ. fold (len (x1 :: st)).
+  destruct ((n <? 0) || (n >=? len (x1 :: st))) eqn:C; [reflexivity|].
+  apply orb_false_iff in C as [C1 C2]. apply Z.ltb_ge in C1. rewrite Z.geb_leb in C2. apply Z.leb_gt in C2.
+  destruct (nth_error (x1 :: st) (Z.to_nat n)) as [v|] eqn:En.
+  2:{ apply nth_error_None in En. unfold len in C2. lia. }
+  replace (- n - 1) with (- (n + 1)) by lia.
+  rewrite (py_nth_rev _ (n + 1) v) by (try lia; replace (n + 1 - 1) with n by lia; exact En). cbn [bind].
+  destruct roll.
+  - rewrite (py_del_rev _ (n + 1)) by lia. cbn [bind]. rewrite push_rev.
+    replace (n + 1 - 1) with n by lia. replace (Z.to_nat (n + 1)) with (S (Z.to_nat n)) by lia. reflexivity.
+  - cbn [bind]. rewrite push_rev. reflexivity.
+Qed.
+End Sim.
